@@ -203,6 +203,11 @@ func (s *Server) newPartition(protoPartition *proto.Partition, recovered bool, c
 	if err != nil {
 		return nil, errors.Wrap(err, "failed to create commit log")
 	}
+	// The readonly flag lives on the commit log. Restore it when the partition
+	// is recreated from a snapshot or resumed.
+	if protoPartition.Readonly {
+		log.SetReadonly(true)
+	}
 
 	replicas := make(map[string]struct{}, len(protoPartition.Replicas))
 	for _, replica := range protoPartition.Replicas {
@@ -255,6 +260,10 @@ func (s *Server) replacePartition(oldPartition *partition, recovered bool, confi
 	st, err := s.newPartition(oldPartition.Partition, recovered, config)
 
 	if err == nil {
+		// The replacement is not paused. Also clear the protobuf value (used
+		// for snapshotting), otherwise the partition comes back paused when
+		// the metadata is restored from a snapshot.
+		st.Paused = false
 		st.messagesReceivedTimestamps = oldPartition.MessagesReceivedTimestamps()
 		st.pauseTimestamps = oldPartition.PauseTimestamps()
 		st.readonlyTimestamps = oldPartition.ReadonlyTimestamps()
